@@ -175,13 +175,21 @@ SPECS["C29"] = {
 }
 
 SPECS["C04"] = {
-    "parts": [{"engine": "kani", "group": "parser", "select": r"^c04_", "mem_gb": 14, "timeout": {"quick": 1800, "thorough": 3000}}],
-    "functions": ["dicom_parser::dataset::write::DataSetWriter::{write, write_impl} with both ExplicitLengthSqItemStrategy values", "dicom_parser::stateful::encode::StatefulEncoder::{encode_element_header, encode_item_header, "
-                  "encode_item_delimiter, encode_sequence_delimiter, encode_primitive_element, write_bytes}", "ExplicitVRLittleEndianEncoder (through EncoderFor)"],
-    "bounds": "token sequences of fixed shape with symbolic tag / value bytes / choice of defined vs undefined input lengths: one sequence with one item holding a US element; "
-              "an encapsulated pixel data element (empty offset table, one 2-byte fragment) followed by such a sequence; Explicit VR LE",
-    "outside": "other VRs and odd-length padding of values (per-VR element encoding is not harnessed here), Implicit VR LE / Explicit VR BE instances, whole files, byte counts reported by BasicEncode::encode_primitive",
-    "assumptions": ["oracle: reference PS3.5 encoder for these shapes written in kani/parser/src/c04.rs", "dictionary lookup and tracing stubbed"],
+    "parts": [{"engine": "m", "module": "c04"}],
+    "functions": ["dicom_parser::dataset::write::DataSetWriter::{write, write_impl} with both ExplicitLengthSqItemStrategy values",
+                  "dicom_parser::stateful::encode::StatefulEncoder::{encode_element_header, encode_item_header, encode_item_delimiter, encode_sequence_delimiter, "
+                  "encode_primitive_element, encode_text_element, encode_texts_element, convert_text_untrailed, write_bytes, encode_offset_table}, even_len",
+                  "dicom_core::PrimitiveValue::calculate_byte_len", "dicom_encoding::encode::{explicit_le, implicit_le, explicit_be} header / item / delimiter / offset table encoders",
+                  "dicom_encoding::encode::BasicEncode::encode_primitive (numeric, U8, Tags, Str, Strs arms) and basic::{Little,Big}EndianBasicEncoder"],
+    "bounds": "one element through encode_primitive_element per (codec, VR, value variant, item count / text length) instance: U8 x0..3, U16 x1..2, I16/U32/I32/U64/I64 x1..2, Str of 0..3 characters "
+              "in 8 VRs, Strs of 2..3 short strings, Tags x1, Empty; symbolic tag (not FFFE,xxxx, not (0008,0005)), symbolic caller-supplied header length, symbolic content; "
+              "token streams of 5 shapes (sequence > item > element; nested sequences; empty item + item + trailing element; encapsulated pixel data then nested sequences; "
+              "element + pixel data with offset table and an odd fragment) x {default, NoChange} strategy x {defined, undefined} recorded lengths, symbolic values and (default strategy) symbolic recorded lengths; "
+              "all three uncompressed codecs",
+    "outside": "Date/Time/DateTime values and DS/IS written from binary values (their text comes from core::fmt formatting), F32/F64, character sets other than the default repertoire "
+               "(the text codec is a contract: the instance's characters are their own encoding), the (0008,0005) codec switch, longer values and other stream shapes, whole files with meta group, deflated syntaxes",
+    "assumptions": ["text codec contract: default repertoire is its own encoding", "io::Write on Vec<u8> appends and never fails", "byteorder / byteordered write_uN contracts: N/8 bytes in the stated order",
+                    "oracle: PS3.5 7.1/7.5 walker written in enginem/cases/c04.py, also run over the real bytes of every instance (native oracle c04_elem / c04_tokens)"],
 }
 
 SPECS["C12"] = {
